@@ -18,7 +18,7 @@ Each change should look like a plausible, realistic slip a maintainer could make
 Each change must need something SPECIFIC to manifest - a particular interleaving, a fault at a particular point, a multi-step sequence of operations, an unusual input or option combination, a particular data representation, or two cooperating sites that each look fine alone - NOT something ordinary use would expose at once.
 {hint}
 For each change also write a demonstration: a Go test file (package of the directory it is to be placed in, test function name starting with TestDemo, unique e.g. TestDemo{id}R{rnd}M1) that FAILS with the change and PASSES without it. It must be self-contained in one _test.go file, use only the library and the standard library, and be deterministic (for a data race, make it fail deterministically by observing the wrong result, or if impossible, say so in 'needs').
-The two changes must be independent: each diff is relative to the unchanged checkout (git stash / git checkout -- . between them), touch different mechanisms, and preferably different files.
+The two changes must be independent: each diff is relative to the unchanged checkout (save with `git diff > file`, then `git checkout -- .` between them; do NOT use git stash - the stash is shared between worktrees), touch different mechanisms, and preferably different files.
 
 VERIFY YOURSELF, for each change: (a) demo passes on the unchanged checkout, (b) with the change: go build ./... ok and go test -vet=off -count=1 ./... all ok (without the demo file present), (c) with the change the demo fails.
 
